@@ -16,7 +16,8 @@ Model of the stream writer of stream.go (property C11).
 External code is a parameter: what reflection + `encoding/xml` render for the
 worksheet fields before and after `sheetData` (`pre`, `Epilog`), the marshalled
 rich-text runs, `strconv.FormatFloat` results and `bstrMarshal` come with the
-operation; `xml.EscapeText` is transcribed for valid UTF-8 input.
+operation; `xml.EscapeText` and `bstrMarshal` are transcribed for valid UTF-8 input
+(the theorems keep `bstrMarshal`/`bstrUnmarshal` as the parameter `Ext`).
 
 Byte strings are `List Char` with byte-valued characters (as in `XlModel.Ref`).
 
@@ -150,16 +151,59 @@ def needSpace (value : Bytes) : Bool :=
   | first :: _, some last => isWs first || isWs last
   | _, _ => false
 
-/-- external text functions: `bstrMarshal`, `bstrUnmarshal` -/
+/-- external text functions: `bstrMarshal`, `bstrUnmarshal` (the theorems are parametric in them;
+the driver runs with the transcription `bstrMarshal` below) -/
 structure Ext where
   bstr : Bytes → Bytes
   unbstr : Bytes → Bytes
 
-/-- what `trimCellValue(value, true)` returns as text, given the cut value -/
+def isHexC (c : Char) : Bool :=
+  let n := c.toNat
+  (48 ≤ n && n ≤ 57) || (65 ≤ n && n ≤ 70) || (97 ≤ n && n ≤ 102)
+
+def hexUp (n : Nat) : Char := if n < 10 then Char.ofNat (48 + n) else Char.ofNat (55 + n)
+
+/-- `bstrIllegalChar` at the head of valid UTF-8: width and code of a character outside XML 1.0
+(C0 controls other than TAB/LF/CR, U+FFFE, U+FFFF) -/
+def illegalHead : Bytes → Option (Nat × Nat)
+  | [] => none
+  | c :: rest =>
+    let n := c.toNat
+    if n < 32 && n != 9 && n != 10 && n != 13 then some (1, n)
+    else if n = 239 then
+      match rest with
+      | b :: d :: _ =>
+        if b.toNat = 191 && d.toNat = 190 then some (3, 65534)
+        else if b.toNat = 191 && d.toNat = 191 then some (3, 65535)
+        else none
+      | _ => none
+    else none
+
+/-- `bstrEscapeAhead` on what follows an underscore: `xHHHH` and then `_` or an escaped character -/
+def escapeAhead : Bytes → Bool
+  | x :: a :: b :: c :: d :: r :: rest =>
+    x = 'x' && isHexC a && isHexC b && isHexC c && isHexC d && (r = '_' || (illegalHead (r :: rest)).isSome)
+  | _ => false
+
+/-- `bstrMarshal` (lib.go) on valid UTF-8; invalid bytes are copied -/
+def bstrMarshal : Bytes → Bytes
+  | [] => []
+  | c :: rest =>
+    if c = '_' && escapeAhead rest then lit "_x005F_" ++ bstrMarshal rest
+    else match illegalHead (c :: rest) with
+      | some (w, code) =>
+        ['_', 'x', hexUp (code / 4096 % 16), hexUp (code / 256 % 16), hexUp (code / 16 % 16), hexUp (code % 16), '_']
+          ++ bstrMarshal (rest.drop (w - 1))
+      | none => c :: bstrMarshal rest
+termination_by s => s.length
+decreasing_by all_goals simp_wf <;> omega
+
+/-- what `trimCellValue(value, true)` returns as text, given the cut value: marshal first, then
+escape the result for XML (order after `fix: inline strings keep characters not permitted in XML 1.0`) -/
 def inlineText (x : Ext) (cut : Bytes) : Bytes :=
-  match cut with
-  | [] => x.bstr []
-  | _ => x.bstr (replaceNL (escapeText cut))
+  match x.bstr cut with
+  | [] => []
+  | v => replaceNL (escapeText v)
 
 /-! ## cells -/
 
